@@ -214,6 +214,9 @@ type outage struct {
 	j        int
 	limit    uint32
 	dialTime time.Duration
+	// offAll: once connected the application drops all its manager handlers (Manager.OffAll) and installs them
+	// anew: the library's own subscriptions (the sockets listening to their manager) are not the application's
+	offAll bool
 }
 
 func reconnectBody(o outage, lg *evLog, after func(sock sio.ClientSocket, srvGot *[]string, v *vsched.Var)) func(e *vsched.Exec) func() vx.Result {
@@ -255,16 +258,23 @@ func reconnectBody(o outage, lg *evLog, after func(sock sio.ClientSocket, srvGot
 			}
 			return refuse
 		}
-		mgr.OnReconnectAttempt(func(n uint32) { lg.add(fmt.Sprintf("attempt:%d", n)); lg.add("attempt") })
-		mgr.OnReconnectError(func(err error) { lg.add("error") })
-		mgr.OnReconnectFailed(func() { lg.add("failed") })
-		mgr.OnReconnect(func(n uint32) { lg.add("reconnect") })
+		install := func() {
+			mgr.OnReconnectAttempt(func(n uint32) { lg.add(fmt.Sprintf("attempt:%d", n)); lg.add("attempt") })
+			mgr.OnReconnectError(func(err error) { lg.add("error") })
+			mgr.OnReconnectFailed(func() { lg.add("failed") })
+			mgr.OnReconnect(func(n uint32) { lg.add("reconnect") })
+		}
+		install()
 		sock := mgr.Socket("/", nil)
 		sock.OnConnect(func() { lg.add("connect") })
 		sock.OnDisconnect(func(r sio.Reason) { lg.add("disconnect") })
 		sock.Connect()
 		vsched.Await(func() bool { return lg.count("connect") == 1 && len(ssocks) == 1 })
 		vrig.Settle(time.Second)
+		if o.offAll {
+			mgr.OffAll()
+			install()
+		}
 		vsched.SetExploring(true)
 		// the outage begins: the server side drops the connection, dials fail from now on
 		link.V.Do(func() { down = true })
@@ -278,6 +288,9 @@ func reconnectBody(o outage, lg *evLog, after func(sock sio.ClientSocket, srvGot
 			r.Outcome = strings.Join(lg.log, " ")
 			key := func(s string) string { return "reconnect: " + s }
 			what := fmt.Sprintf("outage of %d dials, limit %d, dial time %v: %v", o.j, o.limit, o.dialTime, lg.log)
+			if o.offAll {
+				what = "after Manager.OffAll() and a fresh set of handlers, " + what
+			}
 			gaveUp := o.limit > 0 && o.j >= int(o.limit)
 			wantAttempts := o.j + 1
 			if gaveUp {
@@ -906,6 +919,9 @@ func main() {
 				for limit := uint32(0); limit <= 5; limit++ {
 					for _, dt := range []time.Duration{0, 20 * time.Second} {
 						runOutage(outage{j: j, limit: limit, dialTime: dt}, r)
+						if dt == 0 && j <= 2 {
+							runOutage(outage{j: j, limit: limit, offAll: true}, r)
+						}
 						n++
 					}
 				}
